@@ -27,6 +27,7 @@ int hv(char c) { return c <= '9' ? c - '0' : (c | 0x20) - 'a' + 10; }
 Bytes unhex(const std::string &s) {
   Bytes v;
   if (s == "-") return v;
+  v.reserve(s.size() / 2);
   for (size_t i = 0; i + 1 < s.size(); i += 2) v.push_back((uint8_t)(hv(s[i]) << 4 | hv(s[i + 1])));
   return v;
 }
@@ -93,6 +94,12 @@ std::string handle(const std::vector<std::string> &a) {
   if (c == "crc32" && need(1)) { Bytes d = unhex(a[1]); Blk in(d); return "ok - " + std::to_string(util::CalcCrc32(in.u8(), in.n)); }
   if (c == "sum16" && need(1)) { Bytes d = unhex(a[1]); Blk in(d); return "ok - " + std::to_string(util::CalcCheckSum16(in.u8(), in.n)); }
   if (c == "sum8" && need(1)) { Bytes d = unhex(a[1]); Blk in(d); return "ok - " + std::to_string(util::CalcCheckSum8(in.u8(), in.n)); }
+  if (c == "crcall" && need(1)) {         // all four in one transfer (large inputs): crc16 crc32 sum16 sum8
+    Bytes d = unhex(a[1]); Blk in(d);
+    std::ostringstream os;
+    os << "ok - " << util::CalcCrc16(in.u8(), in.n) << " " << util::CalcCrc32(in.u8(), in.n) << " " << util::CalcCheckSum16(in.u8(), in.n) << " " << (unsigned)util::CalcCheckSum8(in.u8(), in.n);
+    return os.str();
+  }
   if (c == "md5" && need(1)) {           // md5 <hex> [cut ...] : one update per piece
     Bytes d = unhex(a[1]);
     crypto::MD5 m;
